@@ -1,15 +1,183 @@
-"""C05, trxcon leg: the replies of the Python transceiver to every command trxcon
-emits are accepted by trxcon's real response parser (trx_if.c)."""
+"""C05, trxcon leg: the replies of the Python transceiver to every command trxcon emits
+are accepted by trxcon's real response parser.
+
+The tree's trx_if.c (unmodified, ASan/UBSan, csrc/drv_trxcon.c) emits every command
+type through the real trx_if_handle_phyif_cmd(): RESET, SETFREQ_H0 (7 ARFCNs of
+all bands), MEASURE, POWERON/POWEROFF, SETSLOT for every timeslot x channel
+combination, SETTA -128..127, SETFREQ_H1 with every mobile-allocation length 1..64
+in GSM900 and DCS1800.  The emitted octets are delivered to the real Python
+transceiver (MS side of fake_trx.Application on the fake fabric, also judged by
+the reference model), its reply octets go into the real trx_ctrl_read_cb().
+Accepted = callback returns 0, the command leaves the queue, the next queued
+command is sent, the interface is not terminated, the FSM state is the documented
+one, and a MEASURE result reaches trxcon_phyif_handle_rsp with the same ARFCN/dBm.
+"""
+from vlib import cbuild
+from vlib import trxcon_drv
+from vlib.appworld import AppWorld
+from vlib.ref import trxmodel
+
+MS = 1
+PCHANS = ["NONE", "CCCH", "CCCH_SDCCH4", "TCH_F", "TCH_H", "SDCCH8_SACCH8C", "PDCH", "9", "10"]
+
+
+class Leg:
+    def __init__(self, ctx, exe):
+        self.ctx = ctx
+        self.s = trxcon_drv.Session(exe)
+        self.W = AppWorld(trxmodel.std_config())
+        self.n_cmd = 0
+        self.n_rsp = 0
+        self.verbs = {}
+        self.maxlen = 0
+        self.trail = []
+
+    def viol(self, verb, what, msg):
+        self.ctx.violation("C05:trxcon:%s:%s" % (verb, what), {"trxcon": True, "trail": list(self.trail)}, msg)
+
+    def cmd(self, line, expect_state=None, expect_rc=0):
+        """one phyif command through trxcon and the exchange(s) it triggers"""
+        self.trail.append(line)
+        r = self.s.send("cmd " + line)
+        self.n_cmd += 1
+        if r.get("died"):
+            self.viol(line.split()[0], "died", "trxcon died on 'cmd %s': %s" % (line, r.get("report", "")[:300]))
+            return None
+        if r.get("rc") != expect_rc:
+            self.viol(line.split()[0], "cmd-rc", "trx_if_handle_phyif_cmd(%s) returned %r, expected %r" % (line, r.get("rc"), expect_rc))
+            return None
+        pending = list(r.get("sent") or [])
+        last = r
+        upcalls = []
+        while pending:
+            payload = bytes.fromhex(pending.pop(0))
+            self.maxlen = max(self.maxlen, len(payload))
+            verb = payload[4:].split(b" ")[0].rstrip(b"\0").decode("ascii", "replace")
+            self.verbs[verb] = self.verbs.get(verb, 0) + 1
+            v = self.W.ctrl(MS, payload, ("127.0.0.1", 6801))
+            if v:
+                self.viol(verb, "python-" + v[0][0].split(":")[0], "command emitted by trxcon %r: %s" % (payload[:60], v[0][1]))
+                return None
+            out = self.W.last_out
+            if len(out) != 1:
+                self.viol(verb, "no-reply", "no single reply to %r" % payload[:60])
+                return None
+            reply = out[0][3]
+            rr = self.s.send("rsp " + reply.hex())
+            self.n_rsp += 1
+            if rr.get("died"):
+                self.viol(verb, "died", "trxcon died on the reply %r to %r: %s" % (reply[:60], payload[:60], rr.get("report", "")[:300]))
+                return None
+            if rr.get("rc") != 0 or not rr.get("dequeued") or rr.get("terminated"):
+                self.viol(verb, "not-accepted", "reply %r to %r: callback rc=%r dequeued=%r terminated=%r state=%r log=%r"
+                          % (reply[:80], payload[:80], rr.get("rc"), rr.get("dequeued"), rr.get("terminated"), rr.get("state"),
+                             rr.get("log_err")))
+                return None
+            if rr.get("upcall"):
+                upcalls.append((rr["upcall"], reply))
+            pending += list(rr.get("sent") or [])
+            last = rr
+        if last.get("queued"):
+            self.viol(line.split()[0], "queue-left", "%d command(s) still queued after all replies" % last["queued"])
+        if expect_state and last.get("state") != expect_state:
+            self.viol(line.split()[0], "fsm-state", "after '%s' and its replies the FSM is in %r, documented %r" % (line, last.get("state"), expect_state))
+        return last, upcalls
+
+    def close(self):
+        self.s.close()
 
 
 def run(ctx):
+    c = ctx.cov
+    b = cbuild.builddir("c05trx")
     try:
-        from vlib import trxcon_drv  # noqa
-    except ImportError:
-        ctx.cov["trxcon_leg"] = "driver not available"
-        return
-    ctx.cov["trxcon_leg"] = "not wired yet"
+        exe = trxcon_drv.build(b)
+        L = Leg(ctx, exe)
+        try:
+            L.cmd("RESET", "IDLE")
+            for arfcn in (1, 124, 512, 885, 975, 1023, 0):
+                L.cmd("SETFREQ_H0 %d" % arfcn, "IDLE")
+            meas = list(range(1, 125, 1 if not ctx.quick else 9)) + [0, 512, 700, 885, 975, 1023]
+            nmeas = 0
+            for arfcn in meas:
+                r = L.cmd("MEASURE %d" % arfcn)
+                if r is None:
+                    break
+                last, ups = r
+                ok = False
+                for up, reply in ups:
+                    toks = reply.rstrip(b"\0").split(b" ")
+                    if up.get("type") == "MEASURE" and up.get("band_arfcn") == arfcn and up.get("dbm") == int(toks[-1]):
+                        ok = True
+                if not ok:
+                    L.viol("MEASURE", "result", "MEASURE %d: upcalls %r do not carry the ARFCN and the dBm value of the reply" % (arfcn, ups))
+                nmeas += 1
+            L.cmd("SETFREQ_H0 1", None)
+            L.cmd("POWERON", "ACTIVE")
+            nslot = 0
+            for tn in range(8):
+                for pc in PCHANS:
+                    L.cmd("SETSLOT %d %s" % (tn, pc), "ACTIVE")
+                    nslot += 1
+            for ta in range(-128, 128):
+                L.cmd("SETTA %d" % ta, "ACTIVE")
+            L.cmd("POWEROFF", "IDLE")
+            # hopping: every mobile-allocation length
+            enc = {"gsm900": 0, "dcs1800": 0}
+            toolong = []
+            for band, first in (("gsm900", 1), ("dcs1800", 512)):
+                for n in range(1, 65):
+                    hsn, maio = (n * 7) % 64, (n - 1) % 64
+                    line = "SETFREQ_H1 %d %d %d %s" % (hsn, maio, n, " ".join(str(first + k) for k in range(n)))
+                    L.trail.append(line)
+                    r = L.s.send("cmd " + line)
+                    L.trail.pop()
+                    if r.get("rc") not in (0, None) and not r.get("sent"):
+                        toolong.append((band, n, r.get("rc")))     # trxcon cannot encode this one: outside the statement
+                        L.s.send("fresh")
+                        L.trail = ["(fresh)"]
+                        continue
+                    # re-issue through the judged path on a fresh instance (the probe above consumed the command)
+                    L.s.send("fresh")
+                    L.trail = ["(fresh)"]
+                    L.cmd(line, None)
+                    enc[band] += 1
+                    if n in (1, 2, 64) or n % 16 == 0:
+                        L.cmd("POWERON", "ACTIVE")
+                        L.cmd("POWEROFF", "IDLE")
+            c["trxcon_leg"] = "ran"
+            c["trxcon_commands"] = L.n_cmd
+            c["trxcon_replies_fed_back"] = L.n_rsp
+            c["trxcon_verbs"] = L.verbs
+            c["trxcon_longest_command_octets"] = L.maxlen
+            c["trxcon_setfh_lengths_encodable"] = enc
+            c["trxcon_setfh_not_encodable_by_trxcon"] = ["%s N=%d rc=%s" % t for t in toolong]
+            c["trxcon_measure_results_checked"] = nmeas
+            c["traces_validated_against_impl"] = c.get("traces_validated_against_impl", 0) + L.n_rsp
+            c["transitions"] = c.get("transitions", 0) + L.n_rsp
+        finally:
+            L.close()
+        ctx.assumptions += ["trxcon leg: trx_if.c compiled unmodified; system libosmocore fsm/socket/select replaced by a stand-in; one sequential "
+                            "session (trxcon sends one command at a time and waits for the reply)"]
+    finally:
+        cbuild.cleanup(b)
 
 
 def replay(ctx, case):
-    pass
+    b = cbuild.builddir("c05trxr")
+    try:
+        exe = trxcon_drv.build(b)
+        L = Leg(ctx, exe)
+        try:
+            for line in case["trail"]:
+                if line == "(fresh)":
+                    L.s.send("fresh")
+                    continue
+                L.trail = []
+                r = L.cmd(line)
+                if r is None:
+                    break
+        finally:
+            L.close()
+    finally:
+        cbuild.cleanup(b)
